@@ -226,6 +226,12 @@ var c17Cycles = []c17Cyc{
 	{"BEGIN { a.l = []; a.l[0] = a; print a }", "{\"l\": [<circular reference>]}\n"},
 	{"BEGIN { a.b.c.a = a; print a }", "{\"b\": {\"c\": {\"a\": <circular reference>}}}\n"},
 	{"BEGIN { b = []; b[0] = {}; b[0].up = b; print b }", "[{\"up\": <circular reference>}]\n"},
+	// a cycle of length two, entered from each of its members in one print
+	{"BEGIN { b.x = 1; a.y = b; b.x = a; print [a, b] }", "[{\"y\": {\"x\": <circular reference>}}, {\"x\": {\"y\": <circular reference>}}]\n"},
+	{"BEGIN { b.x = 1; a.y = b; b.x = a; print [b, a, b] }", "[{\"x\": {\"y\": <circular reference>}}, {\"y\": {\"x\": <circular reference>}}, {\"x\": {\"y\": <circular reference>}}]\n"},
+	{"BEGIN { b.x = 1; a.y = b; b.x = a; print {p: a, q: b} }", "{\"p\": {\"y\": {\"x\": <circular reference>}}, \"q\": {\"x\": {\"y\": <circular reference>}}}\n"},
+	// keys that look like numbers are ordered like any other key (bytewise), at every depth
+	{"BEGIN { o = {}; o['2'] = 1; o['10'] = 2; o['1a'] = 3; o['9'] = 4; o['-1'] = 5; print o, [o] }", "{\"-1\": 5, \"10\": 2, \"1a\": 3, \"2\": 1, \"9\": 4} [{\"-1\": 5, \"10\": 2, \"1a\": 3, \"2\": 1, \"9\": 4}]\n"},
 	// sharing without a cycle is printed in full
 	{"BEGIN { s = [1, 2]; t = [s, s]; print t }", "[[1, 2], [1, 2]]\n"},
 	{"BEGIN { o.k = 1; q = [o, o, [o]]; print q }", "[{\"k\": 1}, {\"k\": 1}, [{\"k\": 1}]]\n"},
@@ -245,7 +251,9 @@ var c17Cycles = []c17Cyc{
 // <circular reference> at the recurrence; shared acyclic structure prints in full.
 func VHC17Cycles() {
 	c := c17Cycles[vh.Choose("case", len(c17Cycles))]
+	vh.MapOrders(1) // Go's map iteration order is an input: forward or reverse, chosen symbolically
 	out, k := runProg(c.prog)
+	vh.MapOrders(0)
 	vh.Reach("structure rendered")
 	vh.Assert(k == OK, "C17: printing a cyclic or shared structure must not fail")
 	vh.Assert(out == c.want, "C17: cycles print <circular reference> at the recurrence, sharing prints in full: "+c.prog)
